@@ -591,6 +591,12 @@ def build_member(kind: str, ctx: list[str], member: str, base0: Any,
         comp = {"n+1": lambda: n + 1, "1+n": lambda: 1 + n, "2n": lambda: 2 * n,
                 "n+n": lambda: n + n, "nt+1": lambda: n.tagged(foo()) + 1}[member[4:]]()
         return in_ctx(ctx, replace(base0, shape=(comp,)))
+    if member.startswith("npi:"):
+        f = member[4:]
+        v = getattr(base0, f)
+        nv = tuple(np.int64(e) if isinstance(e, int) else e for e in v) \
+            if isinstance(v, tuple) else np.int64(v)
+        return in_ctx(ctx, replace(base0, **{f: nv}))
     if member.startswith("tu:callee"):
         t = env().tu_with_callee(int(member[-1]))
         if kind == "LoopyCallResult":
@@ -681,6 +687,16 @@ def key_members(members: list[str]) -> list[str]:
 
 SYM_MEMBERS = {k: ["sym:n+1", "sym:1+n", "sym:2n", "sym:n+n", "sym:nt+1"]
                for k in ("IndexLambda", "Placeholder", "DistributedRecv")}
+# an INTEGER-valued field given as NumPy integers (np.int64(1) == 1, equal hash): the SAME
+# node as the base for ==, hash, set / dict membership and the persistent key
+for _k, _ms in {"Roll": ["npi:shift", "npi:axis"], "Stack": ["npi:axis"],
+                "Concatenate": ["npi:axis"], "Reshape": ["npi:newshape"],
+                "AxisPermutation": ["npi:axis_permutation"], "Placeholder": ["npi:shape"],
+                "DistributedSend": ["npi:dest_rank", "npi:comm_tag"],
+                "DistributedRecv": ["npi:src_rank", "npi:comm_tag", "npi:shape"]}.items():
+    SYM_MEMBERS[_k] = SYM_MEMBERS.get(_k, []) + _ms
+    for _m in _ms:
+        ALIASES[_m] = "base"
 # a MAPPING-valued field with one entry more ("sup:") or one entry fewer ("sub:") than the
 # base, the common entries identical: different from the base in BOTH directions of ==
 for _k, _ms in {"IndexLambda": ["sup:bindings", "sup:var_to_reduction_descr"],
